@@ -13,6 +13,19 @@ static EndType et_of(int i) { return static_cast<EndType>(i); }
 struct GroupIn { int jt, et; Paths64 paths; };
 struct Obs { int gi, pi, kind; double gd; int jt, et; double spr, dlt; size_t j, k; };
 
+// How the options reach the object: 0 = constructor arguments; 1 = an object constructed with OTHER values
+// (miter limit, arc tolerance, both flags all different) on which the public setters MiterLimit / ArcTolerance /
+// PreserveCollinear / ReverseSolution are then called; 2 = as 1, but the object has already executed once with the other
+// values (paths added before) when the setters are called.  The property speaks about the options in force, not about
+// the way they were supplied, so all three must behave alike.
+static int g_via = 0;
+static void other_opts(double ml, double at, bool pc, bool rev, double& ml0, double& at0) {
+  ml0 = (ml <= 2.0) ? 5.0 : 1.0; at0 = (at > 0.0) ? 0.0 : 3.0; (void)pc; (void)rev;
+}
+static void set_opts(ClipperOffset& co, double ml, double at, bool pc, bool rev) {
+  co.MiterLimit(ml); co.ArcTolerance(at); co.PreserveCollinear(pc); co.ReverseSolution(rev);
+}
+
 static void add_groups(ClipperOffset& co, const std::vector<GroupIn>& gs) {
   for (auto& g : gs) co.AddPaths(g.paths, jt_of(g.jt), et_of(g.et));
 }
@@ -24,16 +37,21 @@ static void cmd_exe(Toks& t, std::ostream& os) {
   for (int i = 0; i < ng; ++i) { GroupIn g; g.jt = t.i32(); g.et = t.i32(); g.paths = t.paths(); gs.push_back(std::move(g)); }
   // 1. plain run, public API
   Paths64 sol_plain; int err_plain;
+  double ml0, at0; other_opts(ml, at, pc, rev, ml0, at0);
   {
-    ClipperOffset co(ml, at, pc, rev);
+    ClipperOffset co(g_via ? ml0 : ml, g_via ? at0 : at, g_via ? !pc : pc, g_via ? !rev : rev);
     add_groups(co, gs);
+    if (g_via == 2) { Paths64 tmp; co.Execute(delta, tmp); }
+    if (g_via) set_opts(co, ml, at, pc, rev);
     co.Execute(delta, sol_plain);
     err_plain = co.ErrorCode();
   }
   // 2. observed run
   Paths64 sol_obs; std::vector<Obs> obs; int err_obs;
-  ClipperOffset co(ml, at, pc, rev);
+  ClipperOffset co(g_via ? ml0 : ml, g_via ? at0 : at, g_via ? !pc : pc, g_via ? !rev : rev);
   add_groups(co, gs);
+  if (g_via == 2) { Paths64 tmp; co.Execute(delta, tmp); }
+  if (g_via) set_opts(co, ml, at, pc, rev);
   int last_gi = -1, last_pi = -1;
   co.SetDeltaCallback([&](const Path64& path, const PathD& norms, size_t j, size_t k) -> double {
     int gi = -1, pi = -1;
@@ -73,9 +91,12 @@ static void cmd_exe(Toks& t, std::ostream& os) {
 static void cmd_run(Toks& t, std::ostream& os) {
   double ml = t.dbl(), at = t.dbl(); bool pc = t.b(), rev = t.b(); double delta = t.dbl();
   int ng = t.i32();
-  ClipperOffset co(ml, at, pc, rev);
+  double ml0, at0; other_opts(ml, at, pc, rev, ml0, at0);
+  ClipperOffset co(g_via ? ml0 : ml, g_via ? at0 : at, g_via ? !pc : pc, g_via ? !rev : rev);
   for (int i = 0; i < ng; ++i) { int jt = t.i32(), et = t.i32(); Paths64 ps = t.paths(); co.AddPaths(ps, jt_of(jt), et_of(et)); }
   Paths64 sol;
+  if (g_via == 2) { Paths64 tmp; co.Execute(delta, tmp); }
+  if (g_via) set_opts(co, ml, at, pc, rev);
   co.Execute(delta, sol);
   os << "OK " << co.ErrorCode() << " S "; put(os, sol);
 }
@@ -154,8 +175,11 @@ static void cmd_fop(Toks& t, std::ostream& os) {
 int main() {
   return main_loop([](Toks& t, std::ostream& os) {
     std::string c = t.next();
+    g_via = 0;
     if (c == "EXE") cmd_exe(t, os);
     else if (c == "RUN") cmd_run(t, os);
+    else if (c == "EXE1" || c == "EXE2") { g_via = c[3] - '0'; cmd_exe(t, os); }
+    else if (c == "RUN1" || c == "RUN2") { g_via = c[3] - '0'; cmd_run(t, os); }
     else if (c == "INF") cmd_inf(t, os);
     else if (c == "GROUP") cmd_group(t, os);
     else if (c == "RAW") cmd_raw(t, os);
